@@ -136,3 +136,21 @@ Theorem C20_observable_difference_unequal : forall a b,
   src_eqb a b = false.
 Proof. exact N4_observable_difference_unequal. Qed.
 Print Assumptions C20_observable_difference_unequal.
+
+(* --- the extracted checker on the model's own observations -------------------------------------- *)
+From RS Require Import Api.ApiHist Checkers.ChkHist.
+From RS Require Proofs.HashChkBase Proofs.HashChkDelim.
+(* for ALL trees and ALL histories the checker never reports a violation (codes 1, 2, 3) of the
+   model; its only findings are K6 (56), and only outside the delimited class *)
+Theorem C20_checker_accepts_model : forall a b opsa opsb,
+  chk_C20_pair a b (api_pair a opsa b opsb) = 0 \/
+  chk_C20_pair a b (api_pair a opsa b opsb) = 100 \/
+  (hash_events a = hash_events b /\ (delimited a && delimited b) = false /\
+   chk_C20_pair a b (api_pair a opsa b opsb) = 56).
+Proof. exact HashChkBase.C20_checker_accepts_model. Qed.
+Print Assumptions C20_checker_accepts_model.
+
+Theorem C20_K6_only_outside_delimited : forall a b opsa opsb,
+  chk_C20_pair a b (api_pair a opsa b opsb) = 56 -> delimited a = false \/ delimited b = false.
+Proof. exact HashChkBase.C20_56_only_outside_delimited. Qed.
+Print Assumptions C20_K6_only_outside_delimited.
